@@ -41,7 +41,7 @@ func (a Arch) String() string {
 		return a.CPU
 	}
 	if !strings.Contains(a.CPU, "-") {
-		if a.ABI == "gnu" && a.OS == "linux" && a.CPU != "any" && a.CPU != "all" {
+		if a.ABI == "gnu" && a.OS == "linux" && a.CPU != "" && a.CPU != "any" && a.CPU != "all" {
 			return a.CPU
 		}
 		if a.ABI == "any" {
